@@ -57,8 +57,10 @@ fn own(core: usize, pre: usize, suf: usize) -> Result<Own, (String, String)> {
     let obj = assemble_debug(ast, &text).map_err(|e| ("machinery:linksrc-assemble".to_string(), format!("{text:?}: {e:?}")))?;
     let sym = obj.symbol_table().ok_or(("machinery:linksrc".to_string(), "no symbol table".to_string()))?;
     let si = sym.source_info().ok_or(("machinery:linksrc".to_string(), "no source info".to_string()))?;
-    let lines = sym.line_iter().map(|(l, a)| (a, si.read_line(l).unwrap_or("").to_string())).collect();
-    let labels = sym.label_iter().map(|(n, _, _)| n.to_string()).collect();
+    let mut lines: Vec<(u16, String)> = sym.line_iter().map(|(l, a)| (a, si.read_line(l).unwrap_or("").to_string())).collect();
+    lines.sort();
+    let mut labels: Vec<String> = sym.label_iter().map(|(n, _, _)| n.to_string()).collect();
+    labels.sort(); // label_iter walks a hash map: details reported in violations must not depend on its order (replay discipline)
     Ok(Own { text, obj, lines, labels })
 }
 
